@@ -171,6 +171,24 @@ func Programs(tier string) []Prog {
 	// F5b: RemoveAll with nothing concurrent on the queue state it replaces (sequential use from one thread)
 	add(Prog{Family: "removeall-seq", Capacity: 2, Scripts: []Script{{Name: "S", Ops: []Op{{OpAdd, 1}, {OpAdd, 2}, {Kind: OpRemoveAll}, {OpAdd, 3}, {Kind: OpRem}, {Kind: OpSize}}}}})
 	add(Prog{Family: "close-removeall-seq", Capacity: 2, Scripts: []Script{{Name: "S", Ops: []Op{{OpAdd, 1}, {Kind: OpClose}, {Kind: OpRemoveAll}, {Kind: OpRem}}}}})
+	// after a completed RemoveAll the queue must behave like a fresh one of the same capacity: back-pressure ...
+	for _, c := range caps {
+		ops := []Op{}
+		for i := 1; i <= c; i++ {
+			ops = append(ops, Op{OpAdd, i})
+		}
+		ops = append(ops, Op{Kind: OpRemoveAll})
+		for i := 1; i <= c+1; i++ {
+			ops = append(ops, Op{OpAdd, 10 + i})
+		}
+		ops = append(ops, Op{Kind: OpSize})
+		add(Prog{Family: "removeall-then-refill-seq", Capacity: c, Scripts: []Script{{Name: "S", Ops: ops}}})
+	}
+	// ... and a queue that is closed, emptied, used again and closed again must end its consumers
+	add(Prog{Family: "close-removeall-reuse-seq", Capacity: 2, Scripts: []Script{{Name: "S", Ops: []Op{{OpAdd, 1}, {Kind: OpClose}, {Kind: OpRemoveAll}, {OpAdd, 2}, {Kind: OpClose}, {Kind: OpRem}, {Kind: OpRem}}}}})
+	// capacity 0 means the default capacity; emptying such a queue must leave a usable queue
+	add(Prog{Family: "capacity0-removeall-seq", Capacity: 0, Scripts: []Script{{Name: "S", Ops: []Op{{OpAdd, 1}, {Kind: OpRemoveAll}, {OpAdd, 2}, {OpAdd, 3}, {Kind: OpRem}, {Kind: OpSize}}}}})
+	add(Prog{Family: "capacity0", Capacity: 0, Scripts: []Script{producer(1, 2), consumer(1, 2)}})
 	return out
 }
 
@@ -330,7 +348,17 @@ type Final struct {
 
 // Linearize searches for a sequential FIFO history explaining the recorded
 // operations; it returns whether one exists and all possible final states.
+// Linearize under the strict model (a closed queue stays closed); LinearizeReopen admits that RemoveAll re-opens
+// a closed queue (what the implementation does: a known finding, reported once under its own signature).
 func Linearize(h *History, delivered map[int]bool) (bool, []Final) {
+	return linearize(h, delivered, false)
+}
+
+func LinearizeReopen(h *History, delivered map[int]bool) (bool, []Final) {
+	return linearize(h, delivered, true)
+}
+
+func linearize(h *History, delivered map[int]bool, reopen bool) (bool, []Final) {
 	var ops []*Event
 	for _, e := range h.Events {
 		switch e.Kind {
@@ -394,6 +422,9 @@ func Linearize(h *History, delivered map[int]bool) (bool, []Final) {
 				continue // some unlinearized mandatory operation returned before e was invoked
 			}
 			ns, ok := apply(st, e)
+			if ok && reopen && e.Kind == OpRemoveAll {
+				ns.closed = false
+			}
 			if !ok {
 				continue
 			}
@@ -551,27 +582,50 @@ func Judge(p Prog, h *History, ex *rt.Exec) Verdict {
 	// (i) linearizability
 	lin, finals := Linearize(h, delivered)
 	if !lin {
-		add4("not linearizable as a FIFO: "+diagnose(p, h, delivered), "no sequential FIFO order consistent with real time explains:\n"+h.String())
+		if lin2, finals2 := LinearizeReopen(h, delivered); lin2 {
+			add4("RemoveAll re-opens a closed queue", "the history is explained only if RemoveAll re-opens the closed queue:\n"+h.String())
+			lin, finals = true, finals2
+		} else {
+			add4("not linearizable as a FIFO: "+diagnose(p, h, delivered), "no sequential FIFO order consistent with real time explains:\n"+h.String())
+		}
 	}
 	// (ii) back-pressure
 	for _, e := range h.Events {
 		if e.Kind != OpAdd || e.Ret == 0 || e.Panic != "" {
 			continue
 		}
-		earlierAdds, earlierRems, removeAllBefore := 0, 0, false
+		// a RemoveAll that overlaps the addition makes the count ambiguous (exempt); one that completed before
+		// the addition was invoked restarts the count: only additions invoked after it returned are certainly
+		// still unclaimed, and every RemoveHead not finished before it was invoked may still claim one
+		var resetAt int64
+		removeAllOverlaps := false
 		for _, f := range h.Events {
-			switch {
-			case f.Kind == OpAdd && f != e && f.Ret != 0 && f.Panic == "" && f.Ret < e.Ret:
-				earlierAdds++
-			case f.Kind == OpRem && f.Inv < e.Ret:
-				earlierRems++
-			case f.Kind == OpRemoveAll && f.Inv < e.Ret:
-				removeAllBefore = true
+			if f.Kind == OpRemoveAll && f.Inv < e.Ret {
+				if f.Ret != 0 && f.Ret < e.Inv {
+					if f.Ret > resetAt {
+						resetAt = f.Ret
+					}
+				} else {
+					removeAllOverlaps = true
+				}
 			}
 		}
-		if !removeAllBefore && earlierAdds-earlierRems >= p.Capacity {
+		earlierAdds, earlierRems := 0, 0
+		for _, f := range h.Events {
+			switch {
+			case f.Kind == OpAdd && f != e && f.Ret != 0 && f.Panic == "" && f.Ret < e.Ret && f.Inv > resetAt:
+				earlierAdds++
+			case f.Kind == OpRem && f.Inv < e.Ret && (f.Ret == 0 || f.Ret > resetAt):
+				earlierRems++
+			}
+		}
+		capacity := p.Capacity
+		if capacity == 0 {
+			capacity = 16
+		}
+		if !removeAllOverlaps && earlierAdds-earlierRems >= capacity {
 			add4("back-pressure: AddValue returned with capacity earlier additions unclaimed",
-				fmt.Sprintf("%s returned while %d earlier-completed additions minus %d RemoveHead invocations >= capacity %d\n%s", e, earlierAdds, earlierRems, p.Capacity, h))
+				fmt.Sprintf("%s returned while %d earlier-completed additions minus %d RemoveHead invocations >= capacity %d\n%s", e, earlierAdds, earlierRems, capacity, h))
 		}
 	}
 	// (iii) observers, literal upper-bound reading
@@ -595,7 +649,7 @@ func Judge(p Prog, h *History, ex *rt.Exec) Verdict {
 		switch o.Kind {
 		case OpSize:
 			w := window(o)
-			if o.Val > p.Capacity {
+			if o.Val > effCap(p) {
 				add4("GetSize exceeds capacity", o.String())
 			}
 			if o.Val < 0 || o.Val > len(w) {
@@ -665,7 +719,7 @@ func Judge(p Prog, h *History, ex *rt.Exec) Verdict {
 			case OpAdd:
 				// completed, unclaimed additions >= capacity
 				for _, f := range finals {
-					if f.Len >= p.Capacity {
+					if f.Len >= effCap(p) {
 						legit = true
 					}
 				}
@@ -689,6 +743,14 @@ func Judge(p Prog, h *History, ex *rt.Exec) Verdict {
 		}
 	}
 	return v
+}
+
+// effCap: capacity 0 requests the default capacity
+func effCap(p Prog) int {
+	if p.Capacity == 0 {
+		return 16
+	}
+	return p.Capacity
 }
 
 func raSuffix(ra bool) string {
